@@ -129,6 +129,13 @@ func buildBodyTypes(api *expr.APIExpr) (map[string]map[string]*EndpointBodies, m
 						panic(fmt.Sprintf("failed to project %q to view %q", body.Type.Name(), view))
 					}
 					body.Type = rt
+				} else if rt, ok := body.Type.(*expr.ResultTypeExpr); ok && (!resp.Headers.IsEmpty() || !resp.Cookies.IsEmpty()) {
+					// The attributes mapped to headers and cookies are not
+					// part of the body: describe the body type itself rather
+					// than the result type it shares its identifier with.
+					stripped := *body
+					stripped.Type = rt.UserTypeExpr
+					body = &stripped
 				}
 				js := sf.schemafy(body)
 				res[resp.StatusCode] = append(res[resp.StatusCode], js)
